@@ -777,4 +777,120 @@ theorem cooNdSparseRun_zero_cols (es : List Ent) (x2 : Dense) :
     simp only [hd, if_true]
     exact ih d _ hd
 
+/-! ### `_dot_coo_coo` -/
+
+/-- the `(col, value)` entries among the written triples that belong to output row `i` -/
+def rowOfTriples (ts : List (Nat × Nat × Int)) (i : Nat) : List (Nat × Int) :=
+  ts.filterMap fun t => if t.1 = i then some t.2 else none
+
+theorem rowOfTriples_append (xs ys : List (Nat × Nat × Int)) (i : Nat) :
+    rowOfTriples (xs ++ ys) i = rowOfTriples xs i ++ rowOfTriples ys i := by
+  simp [rowOfTriples, List.filterMap_append]
+
+theorem rowOfTriples_tag (l : List (Nat × Int)) (i j : Nat) :
+    rowOfTriples (l.map fun e => (j, e.1, e.2)) i = if j = i then l else [] := by
+  induction l with
+  | nil => simp [rowOfTriples]
+  | cons e l ih =>
+    unfold rowOfTriples at ih ⊢
+    simp only [List.map_cons, List.filterMap_cons]
+    by_cases h : j = i
+    · simp only [h, if_true] at ih ⊢
+      rw [ih]
+    · simp only [h, if_false] at ih ⊢
+      exact ih
+
+theorem dotCooCooLoop_closed (nRow nCol : Nat) (A B : CSR) (hB : B.ColsIn nCol) :
+    (dotCooCooLoop nRow nCol A B).1 = List.replicate nCol 0
+    ∧ (dotCooCooLoop nRow nCol A B).2
+        = (List.range nRow).flatMap (fun i => (rowEmit (A.row i) B).map fun e => (i, e.1, e.2)) := by
+  induction nRow with
+  | zero => simp [dotCooCooLoop]
+  | succ n ih =>
+    obtain ⟨h1, h2⟩ := ih
+    have step : dotCooCooLoop (n + 1) nCol A B =
+        (let st := dotCooCooLoop n nCol A B
+         let r := csrCsrRow nCol (A.row n) B st.1
+         (r.1.sums, st.2 ++ r.2.map fun e => (n, e.1, e.2))) := by
+      simp only [dotCooCooLoop, List.range_succ, List.foldl_append, List.foldl_cons, List.foldl_nil]
+    rw [step]
+    simp only
+    rw [h1]
+    obtain ⟨e1, e2⟩ := csrCsrRow_spec nCol (A.row n) B hB
+    rw [e1, e2, h2]
+    refine ⟨rfl, ?_⟩
+    rw [List.range_succ, List.flatMap_append]; simp
+
+theorem rowOfTriples_flatMap (f : Nat → List (Nat × Int)) (n i : Nat) (h : i < n) :
+    rowOfTriples ((List.range n).flatMap fun j => (f j).map fun e => (j, e.1, e.2)) i = f i := by
+  induction n with
+  | zero => omega
+  | succ n ih =>
+    rw [List.range_succ, List.flatMap_append, rowOfTriples_append]
+    simp only [List.flatMap_cons, List.flatMap_nil, List.append_nil]
+    rw [rowOfTriples_tag]
+    by_cases hin : i = n
+    · subst hin
+      have : rowOfTriples ((List.range i).flatMap fun j => (f j).map fun e => (j, e.1, e.2)) i = [] := by
+        unfold rowOfTriples
+        rw [List.filterMap_eq_nil_iff]
+        intro t ht
+        obtain ⟨j, hj, htj⟩ := List.mem_flatMap.mp ht
+        obtain ⟨e, _, rfl⟩ := List.mem_map.mp htj
+        have : j < i := List.mem_range.mp hj
+        have : ¬ j = i := by omega
+        simp [this]
+      simp [this]
+    · have : ¬ n = i := fun hh => hin hh.symm
+      simp only [this, if_false, List.append_nil]
+      exact ih (by omega)
+
+/-! ### `tensordot` axis bookkeeping -/
+
+theorem mem_notin (nd : Nat) (axes : List Nat) (k : Nat) : k ∈ notin nd axes ↔ k < nd ∧ k ∉ axes := by
+  simp [notin, List.mem_filter, List.mem_range]
+
+theorem nodup_notin (nd : Nat) (axes : List Nat) : (notin nd axes).Nodup :=
+  List.Nodup.sublist List.filter_sublist List.nodup_range
+
+theorem notin_append_perm (nd : Nat) (axes : List Nat) (hnd : axes.Nodup) (hr : ∀ a ∈ axes, a < nd) :
+    (notin nd axes ++ axes).Perm (List.range nd) := by
+  rw [List.perm_ext_iff_of_nodup _ List.nodup_range]
+  · intro a
+    rw [List.mem_append, mem_notin, List.mem_range]
+    constructor
+    · rintro (h | h)
+      · exact h.1
+      · exact hr a h
+    · intro h
+      by_cases ha : a ∈ axes
+      · exact Or.inr ha
+      · exact Or.inl ⟨h, ha⟩
+  · rw [List.nodup_append]
+    refine ⟨nodup_notin nd axes, hnd, ?_⟩
+    intro a ha b hb hab
+    subst hab
+    exact ((mem_notin nd axes a).mp ha).2 hb
+
+/-- the two `N2` agree when the contracted extents agree pairwise -/
+theorem n2_eq (sa sb : List Nat) : ∀ (xa xb : List Nat) (acc : Nat), xa.length = xb.length →
+    ((xa.zip xb).all fun p => sa.getD p.1 0 == sb.getD p.2 0) = true →
+    xa.foldl (fun n a => n * sa.getD a 0) acc = xb.foldl (fun n a => n * sb.getD a 0) acc := by
+  intro xa
+  induction xa with
+  | nil =>
+    intro xb acc hl _
+    cases xb with
+    | nil => rfl
+    | cons _ _ => simp at hl
+  | cons a xa ih =>
+    intro xb acc hl hall
+    cases xb with
+    | nil => simp at hl
+    | cons b xb =>
+      simp only [List.zip_cons_cons, List.all_cons, Bool.and_eq_true, beq_iff_eq] at hall
+      simp only [List.foldl_cons]
+      rw [hall.1]
+      exact ih xb _ (by simpa using hl) hall.2
+
 end SparseV.Dot
